@@ -76,15 +76,23 @@ def _basemodel(ctx, extended):
         h = [[uf(base, th, (i, j)) for j in range(2)] for i in range(2)]
         return v, g, h
 
+    calls = []   # call-site record: (helper, "data" | "mc", resolution_size handed over)
+
+    def _note(helper, trans, resolution_size):
+        calls.append((helper, "data" if trans is model.clip_log else "mc", resolution_size))
+
     def sum_gradient(f, data, var, weight=1.0, trans=None, resolution_size=1, args=(), kwargs=None):
+        _note("sum_gradient", trans, resolution_size)
         v, g, h = val_grad_hess(f, trans)
         return _S(ctx, v), [_S(ctx, x) for x in g]
 
     def sum_hessian(f, data, var, weight=1.0, trans=None, resolution_size=1, args=(), kwargs=None):
+        _note("sum_hessian", trans, resolution_size)
         v, g, h = val_grad_hess(f, trans)
         return _S(ctx, v), ctx.shim.STensor(ctx.shim._arr(g)), ctx.shim.STensor(ctx.shim._arr(h))
 
     def sum_grad_hessp(f, p, data, var, weight=1.0, trans=None, resolution_size=1, args=(), kwargs=None):
+        _note("sum_grad_hessp", trans, resolution_size)
         v, g, h = val_grad_hess(f, trans)
         pv = [_terms(x)[0] for x in p]
         hp = [tm.add(tm.mul(h[i][0], pv[0]), tm.mul(h[i][1], pv[1])) for i in range(2)]
@@ -93,6 +101,7 @@ def _basemodel(ctx, extended):
         return _S(ctx, v), list(g), out
 
     model.sum_gradient, model.sum_hessian, model.sum_grad_hessp = sum_gradient, sum_hessian, sum_grad_hessp
+    bm._vt_calls = calls
     return model, bm, th
 
 
@@ -142,6 +151,19 @@ def _mk_basemodel(extended):
             ctx.eq("grad_hessp_batch.grad[%d]" % k, gp[k], _S(ctx, _d(spec, th, k)), clause="grad_hessp_batch: g[k] == d nll/d theta_k  (%s)" % tag)
             want = tm.add(tm.mul(_d(_d(spec, th, k), th, 0), pv[0]), tm.mul(_d(_d(spec, th, k), th, 1), pv[1]))
             ctx.eq("grad_hessp_batch.hessp[%d]" % k, hp[k], _S(ctx, want), clause="grad_hessp_batch: hessp[k] == sum_l (d^2 nll/d theta_k d theta_l) p_l  (%s)" % tag)
+        # call-site obligations (the helpers are verified against their own contract in model.autodiff_helpers/*; here: they are CALLED with the model's resolution size for the data
+        # term - whose events are groups of resolution_size rows - and with resolution 1 for the phase-space integral, whose rows are independent)
+        bm.resolution_size = 2
+        del bm._vt_calls[:]
+        w4 = ctx.real("w4", (4,))
+        bm.nll_grad_batch([{}], [{}], [w4], [mcw])
+        bm.grad_hessp_batch(p, [{}], [{}], [w4], [mcw])
+        bm.nll_grad_hessian({"weight": w4}, mc, batch=24000)
+        got = sorted(set(bm._vt_calls))
+        want_calls = sorted({(h, "data", 2) for h in ("sum_gradient", "sum_grad_hessp", "sum_hessian")} | {(h, "mc", 1) for h in ("sum_gradient", "sum_grad_hessp", "sum_hessian")})
+        ctx.holds("helpers_called_with_model_resolution", tf.constant(got == want_calls),
+                  clause="nll_grad_batch / grad_hessp_batch / nll_grad_hessian hand resolution_size = self.resolution_size to the batched helper for the DATA term (trans = clip_log) "
+                         "and 1 for the phase-space term: %s" % (got,))
 
     return g
 
